@@ -1,5 +1,738 @@
-//! Harness binary for property C01 (line protocol; see /verif/vlib/BUILDER_GUIDE.md).
+//! Harness binary for property C01 (compiled code behaves as the source semantics prescribe).
+//!
+//! Protocols (answers compared line by line with lean/Driver/C01.lean):
+//!   layout HEX(source of module Test)   real parser + checker + HIR lowering + generics
+//!       specialisation (hook H2); answer: every specialised type definition `_Test_*`,
+//!       sorted by encoded name: `name=S<n>` (struct) or `name=E:I,U(name),B<n>` (enum layout)
+//!   tailrec | a,b;c,d | <MIR text>      real mir_tail_recursion_rewrite on every function
+//!   cpe     | a,b;c,d | <MIR text>      real mir_constant_param_elimination::rewrite_sources
+//!       answer: `prog <canonical text of the rewritten program> || <oracle>` where the oracle
+//!       part (independent of the Lean model) runs a MIR interpreter before and after the pass
+//!       (after: `While` assigns its loop variables sequentially, like wasm_lowering.rs:425-441).
+//! The MIR text format, its parser and the interpreter were first written for harness/src/bin/c02.rs.
+#![allow(dead_code)]
+use samlang_ast::hir::BinaryOperator as B;
+use samlang_ast::mir::*;
+use samlang_heap::{Heap, PStr};
+use samverif_harness::util::*;
+use std::collections::HashMap;
+use std::panic::{AssertUnwindSafe, catch_unwind};
+
+fn op_of(s: &str) -> Option<B> {
+  Some(match s {
+    "mul" => B::MUL,
+    "div" => B::DIV,
+    "mod" => B::MOD,
+    "add" => B::PLUS,
+    "sub" => B::MINUS,
+    "and" => B::LAND,
+    "or" => B::LOR,
+    "shl" => B::SHL,
+    "shr" => B::SHR,
+    "xor" => B::XOR,
+    "lt" => B::LT,
+    "le" => B::LE,
+    "gt" => B::GT,
+    "ge" => B::GE,
+    "eq" => B::EQ,
+    "ne" => B::NE,
+    _ => return None,
+  })
+}
+
+fn op_name(o: B) -> &'static str {
+  match o {
+    B::MUL => "mul",
+    B::DIV => "div",
+    B::MOD => "mod",
+    B::PLUS => "add",
+    B::MINUS => "sub",
+    B::LAND => "and",
+    B::LOR => "or",
+    B::SHL => "shl",
+    B::SHR => "shr",
+    B::XOR => "xor",
+    B::LT => "lt",
+    B::LE => "le",
+    B::GT => "gt",
+    B::GE => "ge",
+    B::EQ => "eq",
+    B::NE => "ne",
+  }
+}
+
+fn name(heap: &mut Heap, s: &str) -> PStr {
+  heap.alloc_string(s.to_string())
+}
+
+fn var(heap: &mut Heap, s: &str) -> Expression {
+  Expression::var_name(name(heap, s), INT_32_TYPE)
+}
+
+/// `i<n>` Int32Literal, `j<n>` Int31Literal, `s<k>` StringName, `v<k>` Variable.
+// ---------------------------------------------------------------------------------------------
+// Program text -> MIR
+// ---------------------------------------------------------------------------------------------
+
+struct Parser<'a> {
+  toks: Vec<&'a str>,
+  pos: usize,
+}
+
+type PResult<T> = Result<T, String>;
+
+impl<'a> Parser<'a> {
+  fn next(&mut self) -> PResult<&'a str> {
+    let t = self.toks.get(self.pos).copied().ok_or_else(|| "unexpected end".to_string())?;
+    self.pos += 1;
+    Ok(t)
+  }
+  fn peek(&self) -> Option<&'a str> {
+    self.toks.get(self.pos).copied()
+  }
+  fn expect(&mut self, s: &str) -> PResult<()> {
+    let t = self.next()?;
+    if t == s { Ok(()) } else { Err(format!("expected {s} got {t}")) }
+  }
+  fn num(&mut self) -> PResult<usize> {
+    self.next()?.parse::<usize>().map_err(|e| e.to_string())
+  }
+  fn expr(&mut self, heap: &mut Heap) -> PResult<Expression> {
+    let t = self.next()?;
+    let c = t.chars().next().unwrap();
+    if c == '-' || c.is_ascii_digit() {
+      Ok(Expression::Int32Literal(t.parse::<i32>().map_err(|e| e.to_string())?))
+    } else if c == 'j' && t.len() > 1 && t[1..].parse::<i32>().is_ok() {
+      Ok(Expression::Int31Literal(t[1..].parse::<i32>().unwrap()))
+    } else {
+      Ok(var(heap, t))
+    }
+  }
+  fn block(&mut self, heap: &mut Heap) -> PResult<Vec<Statement>> {
+    self.expect("{")?;
+    let s = self.stmts(heap)?;
+    self.expect("}")?;
+    Ok(s)
+  }
+  fn stmts(&mut self, heap: &mut Heap) -> PResult<Vec<Statement>> {
+    let mut out = Vec::new();
+    loop {
+      match self.peek() {
+        None | Some("}") | Some("ret") => return Ok(out),
+        _ => out.push(self.stmt(heap)?),
+      }
+    }
+  }
+  fn opt_name(&mut self, heap: &mut Heap) -> PResult<Option<PStr>> {
+    let t = self.next()?;
+    Ok(if t == "_" { None } else { Some(name(heap, t)) })
+  }
+  fn stmt(&mut self, heap: &mut Heap) -> PResult<Statement> {
+    let k = self.next()?;
+    Ok(match k {
+      "bin" => {
+        let n = self.next()?;
+        let n = name(heap, n);
+        let o = self.next()?;
+        let operator = op_of(o).ok_or_else(|| format!("bad op {o}"))?;
+        let e1 = self.expr(heap)?;
+        let e2 = self.expr(heap)?;
+        Statement::Binary(Binary { name: n, operator, e1, e2 })
+      }
+      "not" => {
+        let n = self.next()?;
+        Statement::Not { name: name(heap, n), operand: self.expr(heap)? }
+      }
+      "cast" => {
+        let n = self.next()?;
+        Statement::Cast { name: name(heap, n), type_: INT_32_TYPE, assigned_expression: self.expr(heap)? }
+      }
+      "call" => {
+        let f = self.next()?;
+        let n = self.num()?;
+        let mut arguments = Vec::new();
+        for _ in 0..n {
+          arguments.push(self.expr(heap)?);
+        }
+        let return_collector = self.opt_name(heap)?;
+        Statement::Call {
+          callee: Callee::FunctionName(FunctionNameExpression {
+            name: FunctionName { type_name: TypeNameId::EMPTY, fn_name: name(heap, f) },
+            type_: Type::new_fn_unwrapped(vec![INT_32_TYPE; n], INT_32_TYPE),
+          }),
+          arguments,
+          return_type: INT_32_TYPE,
+          return_collector,
+        }
+      }
+      "if" => {
+        let condition = self.expr(heap)?;
+        let s1 = self.block(heap)?;
+        let s2 = self.block(heap)?;
+        let n = self.num()?;
+        let mut final_assignments = Vec::new();
+        for _ in 0..n {
+          let nm = self.next()?;
+          let nm = name(heap, nm);
+          let e1 = self.expr(heap)?;
+          let e2 = self.expr(heap)?;
+          final_assignments.push(IfElseFinalAssignment { name: nm, type_: INT_32_TYPE, e1, e2 });
+        }
+        Statement::IfElse { condition, s1, s2, final_assignments }
+      }
+      "sif" => {
+        let condition = self.expr(heap)?;
+        let invert_condition = self.num()? != 0;
+        let statements = self.block(heap)?;
+        Statement::SingleIf { condition, invert_condition, statements }
+      }
+      "brk" => Statement::Break(self.expr(heap)?),
+      "while" => {
+        let n = self.num()?;
+        let mut loop_variables = Vec::new();
+        for _ in 0..n {
+          let nm = self.next()?;
+          let nm = name(heap, nm);
+          let initial_value = self.expr(heap)?;
+          let loop_value = self.expr(heap)?;
+          loop_variables.push(GenenalLoopVariable { name: nm, type_: INT_32_TYPE, initial_value, loop_value });
+        }
+        let statements = self.block(heap)?;
+        let break_collector = self.opt_name(heap)?.map(|n| VariableName { name: n, type_: INT_32_TYPE });
+        Statement::While { loop_variables, statements, break_collector }
+      }
+      other => return Err(format!("bad statement {other}")),
+    })
+  }
+  fn function(&mut self, heap: &mut Heap) -> PResult<Function> {
+    self.expect("fn")?;
+    let f = self.next()?;
+    let n = self.num()?;
+    let parameters = (0..n).map(|i| name(heap, &format!("p{i}"))).collect();
+    let body = self.stmts(heap)?;
+    self.expect("ret")?;
+    let return_value = self.expr(heap)?;
+    self.expect("end")?;
+    Ok(Function {
+      name: FunctionName { type_name: TypeNameId::EMPTY, fn_name: name(heap, f) },
+      parameters,
+      type_: Type::new_fn_unwrapped(vec![INT_32_TYPE; n], INT_32_TYPE),
+      body,
+      return_value,
+    })
+  }
+}
+
+fn parse_program(heap: &mut Heap, text: &str) -> PResult<Vec<Function>> {
+  let mut p = Parser { toks: text.split_whitespace().collect(), pos: 0 };
+  let mut fs = Vec::new();
+  while p.peek().is_some() {
+    fs.push(p.function(heap)?);
+  }
+  if fs.is_empty() { Err("no function".to_string()) } else { Ok(fs) }
+}
+
+// ---------------------------------------------------------------------------------------------
+// MIR interpreter: the target's semantics (wasm i32 ops, traps), prints as the observable trace
+// ---------------------------------------------------------------------------------------------
+
+#[derive(Debug, Clone, PartialEq, Eq)]
+enum Stop {
+  Trap(String),
+  Timeout,
+  Bad(String),
+}
+
+enum Flow {
+  Next,
+  Break(i32),
+}
+
+struct Machine<'a> {
+  /// true: loop variables are assigned one after the other, in declaration order, each reading
+  /// the current values (what wasm_lowering.rs:425-441 and the TS printer emit);
+  /// false: all loop values are read first (parallel assignment).
+  seq_loop: bool,
+  heap: &'a Heap,
+  functions: &'a [Function],
+  lines: Vec<String>,
+  steps: u64,
+  limit: u64,
+}
+
+fn target_binary(op: B, a: i32, b: i32) -> Result<i32, Stop> {
+  Ok(match op {
+    B::MUL => a.wrapping_mul(b),
+    B::DIV => {
+      if b == 0 {
+        return Err(Stop::Trap(format!("div0:{a}")));
+      }
+      if a == i32::MIN && b == -1 {
+        return Err(Stop::Trap("divovf".to_string()));
+      }
+      a / b
+    }
+    B::MOD => {
+      if b == 0 {
+        return Err(Stop::Trap(format!("rem0:{a}")));
+      }
+      a.wrapping_rem(b)
+    }
+    B::PLUS => a.wrapping_add(b),
+    B::MINUS => a.wrapping_sub(b),
+    B::LAND => a & b,
+    B::LOR => a | b,
+    B::SHL => a.wrapping_shl(b as u32),
+    B::SHR => ((a as u32).wrapping_shr(b as u32)) as i32,
+    B::XOR => a ^ b,
+    B::LT => (a < b) as i32,
+    B::LE => (a <= b) as i32,
+    B::GT => (a > b) as i32,
+    B::GE => (a >= b) as i32,
+    B::EQ => (a == b) as i32,
+    B::NE => (a != b) as i32,
+  })
+}
+
+impl<'a> Machine<'a> {
+  fn eval(&self, env: &HashMap<PStr, i32>, e: &Expression) -> Result<i32, Stop> {
+    match e {
+      Expression::Int32Literal(n) | Expression::Int31Literal(n) => Ok(*n),
+      Expression::StringName(_) => Err(Stop::Bad("string name in int program".into())),
+      Expression::Variable(v) => env
+        .get(&v.name)
+        .copied()
+        .ok_or_else(|| Stop::Bad(format!("unbound variable {}", v.name.as_str(self.heap)))),
+    }
+  }
+
+  fn tick(&mut self) -> Result<(), Stop> {
+    self.steps += 1;
+    if self.steps > self.limit { Err(Stop::Timeout) } else { Ok(()) }
+  }
+
+  fn call(&mut self, f: &FunctionName, args: Vec<i32>, depth: usize) -> Result<i32, Stop> {
+    let fname = f.fn_name.as_str(self.heap);
+    if f.type_name == TypeNameId::STR && fname == "fromInt" {
+      // strings are only ever produced by Str.fromInt and consumed by Process.println in the
+      // generated sources: the string is represented by the integer it prints
+      return Ok(args.last().copied().unwrap_or(0));
+    }
+    if f.type_name == TypeNameId::PROCESS && fname == "println" {
+      self.lines.push(args.last().copied().unwrap_or(0).to_string());
+      return Ok(0);
+    }
+    if fname == "print" {
+      self.lines.push(args.iter().map(|a| a.to_string()).collect::<Vec<_>>().join(" "));
+      return Ok(0);
+    }
+    if depth > 150 {
+      return Err(Stop::Timeout);
+    }
+    let functions = self.functions;
+    let func = functions
+      .iter()
+      .find(|g| g.name == *f)
+      .ok_or_else(|| Stop::Bad(format!("unknown function {fname}")))?;
+    if func.parameters.len() != args.len() {
+      return Err(Stop::Bad(format!("arity mismatch calling {fname}")));
+    }
+    let mut args = args;
+    if depth == 0 {
+      // the entry function's own parameters may have been renamed by the pass
+      args.truncate(func.parameters.len());
+    }
+    let mut env: HashMap<PStr, i32> = HashMap::new();
+    for (p, a) in func.parameters.iter().zip(args) {
+      env.insert(*p, a);
+    }
+    match self.stmts(&mut env, &func.body, depth)? {
+      Flow::Next => {}
+      Flow::Break(_) => return Err(Stop::Bad("break outside loop".into())),
+    }
+    self.eval(&env, &func.return_value)
+  }
+
+  fn stmts(&mut self, env: &mut HashMap<PStr, i32>, ss: &[Statement], depth: usize) -> Result<Flow, Stop> {
+    for s in ss {
+      if let Flow::Break(v) = self.stmt(env, s, depth)? {
+        return Ok(Flow::Break(v));
+      }
+    }
+    Ok(Flow::Next)
+  }
+
+  fn stmt(&mut self, env: &mut HashMap<PStr, i32>, s: &Statement, depth: usize) -> Result<Flow, Stop> {
+    self.tick()?;
+    match s {
+      Statement::Binary(b) => {
+        let a = self.eval(env, &b.e1)?;
+        let c = self.eval(env, &b.e2)?;
+        env.insert(b.name, target_binary(b.operator, a, c)?);
+      }
+      Statement::Not { name, operand } => {
+        let a = self.eval(env, operand)?;
+        env.insert(*name, a ^ 1);
+      }
+      Statement::Cast { name, type_: _, assigned_expression }
+      | Statement::LateInitAssignment { name, assigned_expression } => {
+        let a = self.eval(env, assigned_expression)?;
+        env.insert(*name, a);
+      }
+      Statement::LateInitDeclaration { .. } => {}
+      Statement::Call { callee, arguments, return_type: _, return_collector } => {
+        let mut args = Vec::new();
+        for a in arguments {
+          args.push(self.eval(env, a)?);
+        }
+        let r = match callee {
+          Callee::FunctionName(f) => self.call(&f.name, args, depth + 1)?,
+          Callee::Variable(_) => return Err(Stop::Bad("indirect call".into())),
+        };
+        if let Some(c) = return_collector {
+          env.insert(*c, r);
+        }
+      }
+      Statement::IfElse { condition, s1, s2, final_assignments } => {
+        let c = self.eval(env, condition)? != 0;
+        if let Flow::Break(v) = self.stmts(env, if c { s1 } else { s2 }, depth)? {
+          return Ok(Flow::Break(v));
+        }
+        let mut vals = Vec::new();
+        for fa in final_assignments {
+          vals.push(self.eval(env, if c { &fa.e1 } else { &fa.e2 })?);
+        }
+        for (fa, v) in final_assignments.iter().zip(vals) {
+          env.insert(fa.name, v);
+        }
+      }
+      Statement::SingleIf { condition, invert_condition, statements } => {
+        let c = (self.eval(env, condition)? != 0) ^ *invert_condition;
+        if c {
+          if let Flow::Break(v) = self.stmts(env, statements, depth)? {
+            return Ok(Flow::Break(v));
+          }
+        }
+      }
+      Statement::Break(e) => return Ok(Flow::Break(self.eval(env, e)?)),
+      Statement::While { loop_variables, statements, break_collector } => {
+        if self.seq_loop {
+          for v in loop_variables {
+            let x = self.eval(env, &v.initial_value)?;
+            env.insert(v.name, x);
+          }
+          loop {
+            self.tick()?;
+            if let Flow::Break(v) = self.stmts(env, statements, depth)? {
+              if let Some(bc) = break_collector {
+                env.insert(bc.name, v);
+              }
+              break;
+            }
+            for v in loop_variables {
+              let x = self.eval(env, &v.loop_value)?;
+              env.insert(v.name, x);
+            }
+          }
+        } else {
+          let mut vals = Vec::new();
+          for v in loop_variables {
+            vals.push(self.eval(env, &v.initial_value)?);
+          }
+          loop {
+            self.tick()?;
+            for (v, x) in loop_variables.iter().zip(&vals) {
+              env.insert(v.name, *x);
+            }
+            if let Flow::Break(v) = self.stmts(env, statements, depth)? {
+              if let Some(bc) = break_collector {
+                env.insert(bc.name, v);
+              }
+              break;
+            }
+            vals.clear();
+            for v in loop_variables {
+              vals.push(self.eval(env, &v.loop_value)?);
+            }
+          }
+        }
+      }
+      Statement::IsPointer { .. }
+      | Statement::IndexedAccess { .. }
+      | Statement::StructInit { .. }
+      | Statement::ClosureInit { .. } => return Err(Stop::Bad("unsupported statement".into())),
+    }
+    Ok(Flow::Next)
+  }
+}
+
+#[derive(Debug, Clone, PartialEq, Eq)]
+struct Outcome {
+  lines: Vec<String>,
+  end: Result<i32, Stop>,
+  steps: u64,
+}
+
+impl Outcome {
+  fn show(&self) -> String {
+    let l = if self.lines.is_empty() { "-".to_string() } else { self.lines.join(",").replace(' ', "_") };
+    let e = match &self.end {
+      Ok(v) => format!("ret:{v}"),
+      Err(Stop::Trap(k)) => format!("trap:{k}"),
+      Err(Stop::Timeout) => "timeout".to_string(),
+      Err(Stop::Bad(m)) => format!("bad:{}", m.replace(' ', "_")),
+    };
+    format!("{l}|{e}")
+  }
+}
+
+
+fn run_entry(heap: &Heap, functions: &[Function], args: &[i32], limit: u64, entry: &str, seq_loop: bool) -> Outcome {
+  let mut m = Machine { seq_loop, heap, functions, lines: Vec::new(), steps: 0, limit };
+  let main = functions.iter().find(|f| f.name.fn_name.as_str(heap) == entry);
+  let end = match main {
+    None => Err(Stop::Bad(format!("entry function {entry} disappeared"))),
+    Some(f) => {
+      let mut a = args.to_vec();
+      a.resize(f.parameters.len(), 0);
+      m.call(&f.name.clone(), a, 0)
+    }
+  };
+  Outcome { lines: m.lines, end, steps: m.steps }
+}
+
+// ---------------------------------------------------------------------------------------------
+// Running the real passes
+// ---------------------------------------------------------------------------------------------
+
+// ---------------------------------------------------------------------------------------------
+// Canonical program text (same grammar as the input; parameters listed by name)
+// ---------------------------------------------------------------------------------------------
+
+fn pe(heap: &Heap, e: &Expression) -> String {
+  match e {
+    Expression::Int32Literal(n) => format!("{n}"),
+    Expression::Int31Literal(n) => format!("j{n}"),
+    Expression::StringName(p) => format!("str:{}", p.as_str(heap)),
+    Expression::Variable(v) => v.name.as_str(heap).to_string(),
+  }
+}
+
+fn pstmts(heap: &Heap, ss: &[Statement], out: &mut Vec<String>) {
+  for s in ss {
+    pstmt(heap, s, out);
+  }
+}
+
+fn pblock(heap: &Heap, ss: &[Statement], out: &mut Vec<String>) {
+  out.push("{".into());
+  pstmts(heap, ss, out);
+  out.push("}".into());
+}
+
+fn pstmt(heap: &Heap, s: &Statement, out: &mut Vec<String>) {
+  match s {
+    Statement::Binary(b) => {
+      out.push(format!("bin {} {} {} {}", b.name.as_str(heap), op_name(b.operator), pe(heap, &b.e1), pe(heap, &b.e2)))
+    }
+    Statement::Not { name, operand } => out.push(format!("not {} {}", name.as_str(heap), pe(heap, operand))),
+    Statement::Cast { name, type_: _, assigned_expression } => {
+      out.push(format!("cast {} {}", name.as_str(heap), pe(heap, assigned_expression)))
+    }
+    Statement::Call { callee, arguments, return_type: _, return_collector } => {
+      let f = match callee {
+        Callee::FunctionName(f) => f.name.fn_name.as_str(heap).to_string(),
+        Callee::Variable(v) => format!("var:{}", v.name.as_str(heap)),
+      };
+      let mut t = format!("call {f} {}", arguments.len());
+      for a in arguments {
+        t.push(' ');
+        t.push_str(&pe(heap, a));
+      }
+      t.push(' ');
+      t.push_str(&return_collector.map(|c| c.as_str(heap).to_string()).unwrap_or("_".into()));
+      out.push(t);
+    }
+    Statement::IfElse { condition, s1, s2, final_assignments } => {
+      out.push(format!("if {}", pe(heap, condition)));
+      pblock(heap, s1, out);
+      pblock(heap, s2, out);
+      let mut t = format!("{}", final_assignments.len());
+      for fa in final_assignments {
+        t.push_str(&format!(" {} {} {}", fa.name.as_str(heap), pe(heap, &fa.e1), pe(heap, &fa.e2)));
+      }
+      out.push(t);
+    }
+    Statement::SingleIf { condition, invert_condition, statements } => {
+      out.push(format!("sif {} {}", pe(heap, condition), *invert_condition as u8));
+      pblock(heap, statements, out);
+    }
+    Statement::Break(e) => out.push(format!("brk {}", pe(heap, e))),
+    Statement::While { loop_variables, statements, break_collector } => {
+      let mut t = format!("while {}", loop_variables.len());
+      for v in loop_variables {
+        t.push_str(&format!(" {} {} {}", v.name.as_str(heap), pe(heap, &v.initial_value), pe(heap, &v.loop_value)));
+      }
+      out.push(t);
+      pblock(heap, statements, out);
+      out.push(break_collector.map(|c| c.name.as_str(heap).to_string()).unwrap_or("_".into()));
+    }
+    _ => out.push("unsupported".into()),
+  }
+}
+
+fn pfun(heap: &Heap, f: &Function) -> String {
+  let mut out = vec![format!("fn {} [", f.name.fn_name.as_str(heap))];
+  for p in &f.parameters {
+    out.push(p.as_str(heap).to_string());
+  }
+  out.push("]".into());
+  pstmts(heap, &f.body, &mut out);
+  out.push(format!("ret {} end", pe(heap, &f.return_value)));
+  out.join(" ")
+}
+
+fn pprog(heap: &Heap, fs: &[Function]) -> String {
+  let mut v: Vec<String> = fs.iter().map(|f| pfun(heap, f)).collect();
+  v.sort();
+  v.join(" ")
+}
+
+fn sources_of(functions: Vec<Function>) -> Sources {
+  let main_function_names = functions.iter().take(1).map(|f| f.name).collect();
+  Sources {
+    symbol_table: SymbolTable::new(),
+    global_variables: Vec::new(),
+    closure_types: Vec::new(),
+    type_definitions: Vec::new(),
+    main_function_names,
+    functions,
+  }
+}
+
+fn parse_args(s: &str) -> Vec<Vec<i32>> {
+  s.split(';')
+    .filter(|t| !t.trim().is_empty())
+    .map(|t| t.split(',').filter(|x| !x.trim().is_empty()).map(|x| x.trim().parse::<i32>().unwrap_or(0)).collect())
+    .collect()
+}
+
+const BEFORE_LIMIT: u64 = 60_000;
+
+/// Oracle: same observable outcome before and after, for every argument vector.
+/// Answer: `same|diff … || b/a;b/a;…` (outcome before / after per argument vector).
+fn compare_runs(heap: &Heap, before: &[Function], after: &[Function], args: &str) -> String {
+  let mut args = parse_args(args);
+  if args.is_empty() {
+    args.push(Vec::new());
+  }
+  let (mut timeouts, mut lines, mut compared) = (0, 0, 0);
+  let mut first_diff = None;
+  let mut per = Vec::new();
+  for (i, a) in args.iter().enumerate() {
+    let ob = run_entry(heap, before, a, BEFORE_LIMIT, "f0", true);
+    if ob.end == Err(Stop::Timeout) {
+      timeouts += 1;
+      per.push("timeout/-".to_string());
+      continue;
+    }
+    let oa = run_entry(heap, after, a, ob.steps * 20 + 50_000, "f0", true);
+    compared += 1;
+    lines += ob.lines.len();
+    per.push(format!("{}/{}", ob.show(), oa.show()));
+    if (ob.lines != oa.lines || ob.end != oa.end) && first_diff.is_none() {
+      let a_s = a.iter().map(|x| x.to_string()).collect::<Vec<_>>().join(",");
+      first_diff = Some(format!("diff arg={i} args={a_s} before={} after={}", ob.show(), oa.show()));
+    }
+  }
+  let head = first_diff.unwrap_or(format!("same compared={compared} timeouts={timeouts} lines={lines}"));
+  format!("{head} || {}", per.join(";"))
+}
+
+fn pass_line(pass: &str, rest: &str) -> String {
+  let rest = rest.split("##").next().unwrap_or("");
+  let parts: Vec<&str> = rest.splitn(3, '|').collect();
+  if parts.len() != 3 {
+    return "bad-line".to_string();
+  }
+  let mut heap = Heap::new();
+  let before = match parse_program(&mut heap, parts[2]) {
+    Ok(f) => f,
+    Err(e) => return format!("bad-program {e}"),
+  };
+  let fs = before.clone();
+  let r = catch_unwind(AssertUnwindSafe(|| match pass {
+    "tailrec" => fs
+      .into_iter()
+      .map(|f| samlang_compiler::verif_hooks::tailrec_rewrite(&mut heap, f))
+      .collect::<Vec<_>>(),
+    _ => samlang_compiler::verif_hooks::eliminate_constant_params(sources_of(fs)).functions,
+  }));
+  let after = match r {
+    Ok(f) => f,
+    Err(e) => return format!("panic {}", panic_msg(&e).replace('\n', " ")),
+  };
+  format!("prog {} || {}", pprog(&heap, &after), compare_runs(&heap, &before, &after, parts[1]))
+}
+
+// ---------------------------------------------------------------------------------------------
+// layout: the real front end + generics specialisation on a module of class declarations
+// ---------------------------------------------------------------------------------------------
+
+fn layout_line(hexsrc: &str) -> String {
+  let text = unhex_str(hexsrc);
+  let r = catch_unwind(AssertUnwindSafe(|| {
+    let mut heap = Heap::new();
+    let heap = &mut heap;
+    let mut error_set = samlang_errors::ErrorSet::new();
+    let mr = heap.alloc_module_reference_from_string_vec(vec!["Test".to_string()]);
+    let parsed = samlang_parser::parse_source_module_from_text(&text, mr, heap, &mut error_set);
+    let mut parsed_sources = HashMap::new();
+    parsed_sources.insert(mr, parsed);
+    let checked = samlang_checker::type_check_sources(&parsed_sources, &mut error_set).0;
+    if error_set.has_errors() {
+      let handles = HashMap::from([(mr, text.to_string())]);
+      return format!("errors {}", error_set.pretty_print_error_messages(heap, &handles).replace('\n', " / "));
+    }
+    let hir = samlang_compiler::verif_hooks::lower_to_hir(heap, &checked);
+    let mir = samlang_compiler::verif_hooks::specialize(heap, hir);
+    let t = &mir.symbol_table;
+    let mut out = Vec::new();
+    for d in &mir.type_definitions {
+      let n = d.name.encoded_for_test(heap, t);
+      if std::env::var("C01_ALL").is_err() && !n.starts_with("Test_") {
+        continue;
+      }
+      let k = match &d.mappings {
+        TypeDefinitionMappings::Struct(ts) => format!("S{}", ts.len()),
+        TypeDefinitionMappings::Enum(vs) => format!(
+          "E:{}",
+          vs.iter()
+            .map(|v| match v {
+              EnumTypeDefinition::Int31 => "I".to_string(),
+              EnumTypeDefinition::Unboxed(u) => format!("U({})", u.encoded_for_test(heap, t)),
+              EnumTypeDefinition::Boxed(ts) => format!("B{}", ts.len()),
+            })
+            .collect::<Vec<_>>()
+            .join(",")
+        ),
+      };
+      out.push(format!("{n}={k}"));
+    }
+    out.sort();
+    format!("ok {}", out.join(";"))
+  }));
+  r.unwrap_or_else(|e| format!("panic {}", panic_msg(&e).replace('\n', " ")))
+}
+
 fn main() {
-  eprintln!("c01: not implemented yet");
-  std::process::exit(2);
+  std::panic::set_hook(Box::new(|_| {}));
+  for_each_line(|line| {
+    let (k, rest) = line.split_once(' ').unwrap_or((line, ""));
+    match k {
+      "layout" => layout_line(rest.split_whitespace().next().unwrap_or("-")),
+      "tailrec" | "cpe" => pass_line(k, rest),
+      _ => "bad-line".to_string(),
+    }
+  });
 }
